@@ -124,7 +124,7 @@ class SymNd(real_np.ndarray):
         return c(key)
     def __getitem__(self, key): return super().__getitem__(self._conc(key))
     def __setitem__(self, key, val):
-        if not isinstance(val,(real_np.ndarray,SF,SB)) : val=SF.of(val) if isinstance(val,(int,float)) and not isinstance(val,bool) else val
+        if self.dtype==object and not isinstance(val,(real_np.ndarray,SF,SB)) : val=SF.of(val) if isinstance(val,(int,float)) and not isinstance(val,bool) else val
         return super().__setitem__(self._conc(key), val)
     def astype(self, dt, *a, **k):
         if self.dtype==object and dt in ("float32","float64",float,real_np.float32,real_np.float64):
